@@ -515,7 +515,7 @@ def compare_case(c, isteps, m, locate=True):
     diff = None
     if not quick_agree(c, isteps, m):
         diff = (len(c["ops"]) - 1, "history fingerprints differ")
-        if locate:
+        if locate and spec is None:
             diff = locate_diff(c, isteps, run_model([c], mode="steps", tag="C18l")[0]) or diff
     return spec, diff
 
